@@ -7433,6 +7433,15 @@ func (l *Lowerer) lowerCall(call *parser.CallExpr, target *[]ir.Statement) (ir.E
 	isStatement := l.isStatement
 	l.isStatement = false
 
+	// Built-ins without a result are statements only; as a value they would
+	// be represented by expression handle 0.
+	if !isStatement {
+		switch funcName {
+		case "workgroupBarrier", "storageBarrier", "textureBarrier", "subgroupBarrier", "atomicStore", "textureStore":
+			return 0, fmt.Errorf("'%s' does not return a value", funcName)
+		}
+	}
+
 	// Check if this is a built-in function (vec4, vec3, etc.)
 	if l.isBuiltinConstructor(funcName) {
 		return l.lowerBuiltinConstructor(funcName, call.Args, target)
@@ -7589,6 +7598,11 @@ func (l *Lowerer) lowerCall(call *parser.CallExpr, target *[]ir.Statement) (ir.E
 	hasResult := true
 	if int(funcHandle) < len(l.module.Functions) {
 		hasResult = l.module.Functions[funcHandle].Result != nil
+	}
+	if !hasResult && !isStatement {
+		// A call without a result has no expression to stand for it; handle 0
+		// would name an unrelated expression (or the one being built).
+		return 0, fmt.Errorf("function '%s' does not return a value", funcName)
 	}
 
 	// Flush pending emit range before the StmtCall.
